@@ -2,6 +2,7 @@
 From Coq Require Import List NArith.
 From Cedar Require Import Lib.Bytes Lib.Sym gen.Consts Model.Frame Model.FrameSpec Proofs.FrameBase Proofs.C01Stream Proofs.C01Sre.
 From Cedar Require Import Model.Msg Model.TypedStream Proofs.C14Writer Proofs.C01Typed Proofs.C01TypedStream.
+From Cedar Require Import Model.File Proofs.C01File.
 Import ListNotations.
 Local Open Scope N_scope.
 
@@ -95,3 +96,14 @@ Example C01_example_history :
   | _ => False
   end.
 Proof. vm_compute. reflexivity. Qed.
+
+(* File transfer (Stream.PutFile / Stream.GetFile): the size, the content in pieces of the read
+   buffer's size and the end marker travel as messages; whatever the content (below 2^63
+   bytes), the file GetFile writes is the file PutFile read, on plaintext and AES-GCM streams
+   alike, nothing is left unread, and the two ends stay paired for further traffic. *)
+Theorem C01_file_roundtrip :
+  forall (A B : stream) (d : bytes) (A' : stream) (fs : list frame),
+    duplex A B -> lenN d < 9223372036854775808 -> put_file A d = (A', 0, fs) ->
+    exists B', get_file B fs = (B', SOk d, []) /\ duplex A' B'.
+Proof. exact file_roundtrip. Qed.
+Print Assumptions C01_file_roundtrip.
